@@ -348,6 +348,15 @@ func (e *Exec) havocLoc(src string, env *SpecEnv, cells map[string]Term, fn *ssa
 		return
 	}
 	for _, tg := range tgs {
+		if !tg.heap && tg.addr == nil {
+			// a whole heap class (anyelems): every array of this element type becomes arbitrary
+			if cur, ok := cells[tg.key]; ok {
+				cells[tg.key] = c.fresh(cur.Sort, "havoc")
+			} else if cur, ok := c.initial[tg.key]; ok {
+				cells[tg.key] = c.fresh(cur.Sort, "havoc")
+			}
+			continue
+		}
 		// slice elements: the backing array object of this slice becomes arbitrary
 		cur, ok := cells[tg.key]
 		if !ok {
